@@ -27,6 +27,8 @@ func main() {
 		runStructural(*plan, w, *n0)
 	case "keys":
 		runKeys(*plan, w, *n0)
+	case "bytes":
+		runBytes(*plan, w, *n0)
 	default:
 		vt.Fatal("unknown mode %q", *mode)
 	}
